@@ -385,6 +385,9 @@ func (c *c16) l2Histories(n, steps int) {
 		// the validator world is only the state generator here: its own (C13) clauses go to a scratch run
 		scratch := mon.NewRun("C16-scratch", "quick", 0, "exploration")
 		w := newValWorld(scratch, "aux", gen, uint32(4+rng.Intn(4)), uint32(rng.Intn(4)))
+		if rng.Bool() {
+			w.e.EnableShadow(rng.U64())
+		}
 		e := w.e
 		l2 := e.L2
 		_, _ = l2.BeginBlock(1e9)
